@@ -131,14 +131,14 @@ pub fn parse_arguments(to_parse: &str) -> Result<Vec<Unifiable>, String> {
                     has_digit = true
                 }
                 else if ch == '+' || ch == '-' {
-                    argument.push(ch);
                     // Plus or minus might be in front of a number: +7, -3.8
-                    // In this case, it is part of the number.
+                    // In this case, it is part of the number. Anywhere
+                    // else (5-, 1+2), it makes the argument an atom.
+                    let at_start = argument.trim().len() == 0;
+                    argument.push(ch);
                     let mut next_ch = 'x';
                     if i < length_chrs - 1 { next_ch = chrs[i + 1]; }
-                    let mut prev_ch = ' ';
-                    if i > 0 { prev_ch = chrs[i]; }
-                    if prev_ch == ' ' && (next_ch < '0' || next_ch > '9') {
+                    if !at_start || next_ch < '0' || next_ch > '9' {
                         has_non_digit = true;
                     }
                 }
@@ -389,12 +389,19 @@ pub fn parse_term(to_parse: &str) -> Result<Unifiable, String> {
         return Ok(sfunc);
     }
 
-    for ch in &chrs {
+    // The characters are classified as parse_arguments() classifies
+    // them, so that a term means the same wherever it is written.
+    for (i, ch) in chrs.iter().enumerate() {
         if *ch >= '0' && *ch <= '9' {
             has_digit = true;
         } else if *ch == '.' {
             has_period = true;
-        } else {
+        } else if i == 0 && (*ch == '+' || *ch == '-') {
+            // Plus or minus in front of a number is part of the number: +7, -3.8
+            let mut next_ch = 'x';
+            if chrs.len() > 1 { next_ch = chrs[1]; }
+            if next_ch < '0' || next_ch > '9' { has_non_digit = true; }
+        } else if *ch > ' ' {
             has_non_digit = true;
         }
     }
